@@ -1,4 +1,5 @@
 CONSTANTS PinnedSeqReset = FALSE  PinnedAnyDrop = FALSE  JudgeOnly = TRUE
+  Props = {"C01", "C02", "C04", "C06"}
 INIT TraceInit
 NEXT TraceNext
 INVARIANTS Hwm TraceReentryBound
